@@ -95,6 +95,12 @@ func runC03(c *Ctx) {
 	// accepts every sidecar value the follower can have written (shared with C16)
 	c16Resume(c)
 	createTruncRule(c, "R7-staging-open-replaces-leftover")
+	remoteStagingUnique(c, "R8-remote-staging-unique")
+	// the first sync after a restart decides from the WAL and the last LTX file alone whether
+	// replication may continue incrementally (the kill may have come between an acknowledged
+	// sync and any amount of application activity): the continuity rules of C04
+	c04DefaultDeny(c)
+	c04Helpers(c)
 
 	// R1b who-may-create
 	{
